@@ -247,6 +247,10 @@ def index_expressions(n):
 				big = np.zeros(2 * m, dtype='i8')
 				big[::2] = t
 				yield big[::2], 'ints'
+	if n >= 2:
+		for t in itertools.product(range(n), repeat=4):
+			yield list(t), 'ints'
+			yield np.array(t, dtype='i8'), 'ints'
 	for ln in (n - 1, n, n + 1):
 		if ln < 0:
 			continue
@@ -366,12 +370,20 @@ def t_mutations(depth, maxlen):
 					merr = None
 				except Exception as e:
 					merr = e
-				real = SignatureList([arrs[s] for s in state], kspec(), dtype=np.dtype('u2'))
+				source = [arrs[s] for s in state]            # the caller's own list, still referenced after construction
+				source_before = list(source)
+				real = SignatureList(source, kspec(), dtype=np.dtype('u2'))
+				sibling = SignatureList(source, kspec(), dtype=np.dtype('u2'))     # a second collection built from the same list
 				try:
 					r2 = apply_event(real, ev, arrs)
 					rerr = None
 				except Exception as e:
 					rerr = e
+				if len(source) != len(source_before) or any(a is not b for a, b in zip(source, source_before)) or \
+						tuple(ident.get(id(x)) for x in sibling) != state:
+					sh.violation('mutation-leaked-into-source-list', dict(state=list(state), event=list(ev)), list(state),
+					             dict(source=[ident.get(id(x)) for x in source], sibling=[ident.get(id(x)) for x in sibling]))
+					continue
 				sh.evals += 1
 				sh.transitions += 1
 				case = dict(state=list(state), event=list(ev))
@@ -408,6 +420,24 @@ def t_mutations(depth, maxlen):
 					nxt.append(exp_state)
 		frontier = nxt
 		d += 1
+	# the other direction: mutating the caller's list afterwards must not change the collection
+	for state in list(seen):
+		for op in ('append', 'pop', 'reverse', 'clear', 'setitem'):
+			src2 = [arrs[s] for s in state]
+			real = SignatureList(src2, kspec(), dtype=np.dtype('u2'))
+			try:
+				if op == 'append': src2.append(arrs['c'])
+				elif op == 'pop': src2.pop()
+				elif op == 'reverse': src2.reverse()
+				elif op == 'clear': src2.clear()
+				else: src2[0] = arrs['c']
+			except IndexError:
+				continue
+			sh.evals += 1
+			if tuple(ident.get(id(x)) for x in real) != state:
+				sh.violation('source-list-mutation-leaked-into-collection', dict(state=list(state), event=['source-' + op]), list(state), [ident.get(id(x)) for x in real])
+			else:
+				sh.count('aliasing_checks')
 	sh.states = len(seen)
 	sh.traces = sh.transitions      # every transition was executed on the real class
 	sh.extra = dict(bfs_depth=d, frontier_left=len(frontier))
@@ -477,6 +507,7 @@ def finalize(agg, tier):
 	agg.require('reordering_or_repeating_selection', 100)
 	agg.require('mutations_that_raise', 10)
 	agg.require('equal_across_container_kinds', 10)
+	agg.require('aliasing_checks', 50)
 	ex = [e for e in agg.extra if 'bfs_depth' in e]
 	agg.coverage_extra['bfs_depth'] = ex[0]['bfs_depth']
 	agg.coverage_extra['bfs_frontier_left_at_depth_bound'] = ex[0]['frontier_left']
@@ -487,6 +518,9 @@ def replay(case, kind=None):
 	if 'index' in case:
 		with Coll(case['kind'], case['n']) as c:
 			check_index(sh, c, undescribe(case['index']), case['what'])
+	elif 'state' in case and kind in ('mutation-leaked-into-source-list', 'source-list-mutation-leaked-into-collection'):
+		vs = t_mutations(3, 4).violations
+		return [v for v in vs if v['kind'] == kind][:1]
 	elif 'state' in case:
 		# re-run the single transition
 		from gambit.sigs.base import SignatureList
